@@ -403,3 +403,197 @@ def run_paren_assoc(prog, tier, repo):
                 res.ok(key, b.loc(t[7]), 'left operand: equal precedence needs no parentheses (left associativity)')
     res.floor('parenthesis decisions for operands of Binary', n, 4)
     return [res]
+
+
+# ---------------------------------------------------------------------------------------------------------------------
+# PAREN-SINK (C08): positions whose printed form is not delimited by brackets or keywords - the operand of a unary operator,
+# both operands of a binary operator, the body of a lambda, the base of a `.member` / call chain - keep the program's
+# grouping only if the printer compares precedences there. The printer has exactly one function doing that (the decider also
+# used by PAREN-ASSOC). Rule: (a) every such child field that reaches an expression printer reaches the decider, never the
+# plain printer directly; (b) a printer function whose signature is (parent expression, sub expression) - i.e. "print sub in
+# the context of parent" - never hands `sub` to the plain printer itself.
+
+RESTRICTED = [('Unary', 'argument'), ('Binary', 'e1'), ('Binary', 'e2'), ('Lambda', 'body')]
+# operators for which (a op b) op c == a op (b op c) for every value: wrapping i32 * and +, string concatenation, and the
+# short-circuit boolean connectives. Everything else (-, /, %, comparisons) is not associative.
+ASSOC = {'MUL', 'PLUS', 'CONCAT', 'AND', 'OR'}
+
+
+def _binary_plain_guard(prog, b, bi, side, parent_local):
+    """Why may Binary.<side> be handed to the plain printer in block bi? 'left-assoc', 'assoc-chain' or None."""
+    from ..cfg import cfg_of, single_def
+    cfg = cfg_of(b)
+
+    def path_of(op):
+        r, p = operand_root(b, op)
+        return r, tuple(e[4] for e in p if e[0] == 'f')
+
+    def prec_arg(local):
+        sd = single_def(b, local)
+        if sd and sd[1] == 'term' and (callee(sd[2])[1] or '').endswith('::precedence') and sd[2][3]:
+            return path_of(sd[2][3][0])
+        return None
+    for sb in sorted(cfg.reach):
+        t = b.blocks[sb].term
+        if t[0] != 'switch' or t[1][0] not in ('c', 'm') or t[1][1].proj:
+            continue
+        sd = single_def(b, t[1][1].local)
+        if not sd:
+            continue
+        true_tg = t[3]
+        if not cfg.edges_dominate([(sb, true_tg)], bi) or any(tg == true_tg for _, tg in t[2]):
+            continue
+        if side == 'e1' and sd[1] != 'term' and sd[2][0] == 'bin' and sd[2][1] == 'Eq':
+            x, y = sd[2][2], sd[2][3]
+            if x[0] in ('c', 'm') and y[0] in ('c', 'm'):
+                px, py = prec_arg(x[1].local), prec_arg(y[1].local)
+                if px and py:
+                    for u, w in ((px, py), (py, px)):
+                        if u[0] == parent_local and u[1][-1:] == ('e1',) and w[0] == parent_local and w[1] == ():
+                            return 'left-assoc'
+        if side == 'e2' and sd[1] == 'term' and (callee(sd[2])[1] or '').endswith('PartialEq>::eq') and len(sd[2][3]) == 2:
+            pa, pb = path_of(sd[2][3][0]), path_of(sd[2][3][1])
+            same_op = False
+            for u, w in ((pa, pb), (pb, pa)):
+                if u[1][-1:] == ('operator',) and w[1][-1:] == ('operator',) and w[0] == parent_local and 'e2' not in w[1]:
+                    ur = u
+                    # the other side must be the operator of the right operand
+                    if 'e2' in u[1] or _rooted_in_e2(b, sd[2][3][0 if u is pa else 1], parent_local):
+                        same_op = True
+            if not same_op:
+                continue
+            # and the parent's operator is restricted to the associative ones on every path to bi
+            from ..tables import enum_switches
+            binop = [a for a in prog.adts.values() if a.name == 'samlang_ast::source::expr::BinaryOperator']
+            if len(binop) != 1:
+                return None
+            for tb in enum_switches(prog, b, binop[0].id):
+                rr, pp = root_local(b, tb.place.local)
+                names = tuple(e[4] for e in tuple(pp) + tuple(tb.place.proj) if e[0] == 'f')
+                if rr != parent_local or 'e2' in names or names[-1:] != ('operator',):
+                    continue
+                if not cfg.nodes_dominate([tb.bb], bi):
+                    continue
+                allowed = {v for v in range(len(binop[0].variants))
+                           if tb.target(v) is not None and (tb.target(v) == bi or cfg.can_reach(tb.target(v), bi))}
+                if allowed and all(binop[0].variants[v].name in ASSOC for v in allowed):
+                    return 'assoc-chain'
+    return None
+
+
+def _rooted_in_e2(b, op, parent_local):
+    """is the operand a field of the Binary payload obtained by matching the parent's e2 (through Box::as_ref)?"""
+    from ..cfg import single_def
+    r, p = operand_root(b, op)
+    seen = 0
+    while r is not None and seen < 6:
+        seen += 1
+        sd = single_def(b, r)
+        if sd and sd[1] == 'term' and (callee(sd[2])[1] or '').split('::')[-1] in ('as_ref', 'deref', 'borrow') and sd[2][3]:
+            r2, p2 = operand_root(b, sd[2][3][0])
+            if any(e[0] == 'f' and e[4] == 'e2' for e in p2) and r2 == parent_local:
+                return True
+            r = r2
+        else:
+            break
+    return False
+
+
+def run_paren_sink(prog, tier, repo):
+    res = RuleResult('PAREN-SINK', 'C08: every sub-expression printed in an undelimited position (unary operand, binary operands, '
+                     'lambda body, base of a member/call chain) goes through the precedence decider, never straight to the plain '
+                     'expression printer')
+    deciders = []
+    for b in prog.bodies.values():
+        if b.crate != 'samlang_printer' or b.kind == 'closure' or b.nargs < 3 or b.locals[b.nargs].s != 'bool':
+            continue
+        es = [i for i in range(1, b.nargs + 1) if b.locals[i].k == 'ref' and b.locals[i].args[0].k == 'adt' and b.locals[i].args[0].name == E]
+        if len(es) == 2 and any((callee(bl.term)[1] or '').endswith('E::<T>::precedence') for bl in b.blocks if bl.term[0] == 'call'):
+            deciders.append((b, es))
+    if len(deciders) != 1:
+        res.cannot_decide(f'the parenthesis decider of the printer (found {len(deciders)})')
+        return [res]
+    dec, es = deciders[0]
+    sub_idx = es[1] - 1
+    # plain expression printers: printer functions with exactly one &E parameter returning what the decider returns, that the
+    # decider itself calls
+    plain = set()
+    for bl in dec.blocks:
+        t = bl.term
+        if t[0] == 'call' and not bl.cleanup:
+            cid, nm = callee(t)
+            cb = prog.bodies.get(cid) if cid else None
+            if cb is not None and cb.crate == 'samlang_printer':
+                pe = [i for i in range(1, cb.nargs + 1) if cb.locals[i].k == 'ref' and cb.locals[i].args[0].k == 'adt' and cb.locals[i].args[0].name == E]
+                if len(pe) == 1:
+                    plain.add(cid)
+                    # and the printers it delegates to with the same single-expression signature
+                    for bl2 in cb.blocks:
+                        t2 = bl2.term
+                        if t2[0] == 'call' and not bl2.cleanup:
+                            c2 = prog.bodies.get(callee(t2)[0]) if callee(t2)[0] else None
+                            if c2 is not None and c2.crate == 'samlang_printer' and c2.locals[0].s == cb.locals[0].s:
+                                pe2 = [i for i in range(1, c2.nargs + 1) if c2.locals[i].k == 'ref' and c2.locals[i].args[0].k == 'adt' and c2.locals[i].args[0].name == E]
+                                if len(pe2) == 1 and c2.nargs == cb.nargs:
+                                    plain.add(c2.id)
+    if not plain:
+        res.cannot_decide('the plain expression printer called by the decider')
+        return [res]
+    reached = {}
+    for b in prog.bodies.values():
+        if b.crate != 'samlang_printer' or b.id == dec.id:
+            continue
+        two_exprs = [i for i in range(1, b.nargs + 1) if b.locals[i].k == 'ref' and b.locals[i].args[0].k == 'adt' and b.locals[i].args[0].name == E]
+        for bi, bl in enumerate(b.blocks):
+            t = bl.term
+            if bl.cleanup or t[0] != 'call':
+                continue
+            cid, nm = callee(t)
+            if cid == dec.id:
+                r, p = operand_root(b, t[3][sub_idx])
+                fs = [e for e in p if e[0] == 'f']
+                if fs:
+                    reached.setdefault((prog.adts[fs[-1][1]].name.split('::')[-1], fs[-1][4]), []).append((b, t[7]))
+                elif r is not None and 1 <= r <= b.nargs and len(two_exprs) == 2:
+                    reached.setdefault(('chain', 'base'), []).append((b, t[7]))
+                continue
+            if cid not in plain:
+                continue
+            eargs = [o for o in t[3] if o[0] in ('c', 'm') and b.locals[o[1].local].k == 'ref' and b.locals[o[1].local].args
+                     and b.locals[o[1].local].args[0].k == 'adt' and b.locals[o[1].local].args[0].name == E]
+            for o in eargs:
+                r, p = operand_root(b, o)
+                fs = [e for e in p if e[0] == 'f']
+                if fs:
+                    pos = (prog.adts[fs[-1][1]].name.split('::')[-1], fs[-1][4])
+                    if pos in (('Binary', 'e1'), ('Binary', 'e2')):
+                        verdict = _binary_plain_guard(prog, b, bi, pos[1], r)
+                        if verdict == 'left-assoc':
+                            res.ok(f'sink:{b.name}:Binary.e1:equal-level', b.loc(t[7]), 'left operand printed plainly only where its '
+                                   'precedence equals the parent\'s (the parser groups equal levels to the left)')
+                            continue
+                        if verdict == 'assoc-chain':
+                            res.violation(f'regroup:{b.name}:associative-chain', b.loc(t[7]), f'{b.name} prints the right operand of a '
+                                          f'binary expression without parentheses when it is a binary expression with the same '
+                                          f'associative operator ({", ".join(sorted(ASSOC))}): `a + (b + c)` is printed as `a + b + c`, '
+                                          f'which re-parses as `(a + b) + c` - a different tree with the same value')
+                            continue
+                    if pos in RESTRICTED:
+                        res.violation(f'sink:{b.name}:{pos[0]}.{pos[1]}', b.loc(t[7]), f'{b.name} prints {pos[0]}.{pos[1]} with the plain '
+                                      f'expression printer: the child is emitted without comparing its precedence with its parent\'s, so '
+                                      f'needed parentheses are dropped and the output re-parses with a different grouping')
+                elif len(two_exprs) == 2 and r == two_exprs[1] and b.kind != 'closure':
+                    res.violation(f'sink:{b.name}:sub-expression', b.loc(t[7]), f'{b.name} takes (parent, sub-expression) but hands the '
+                                  f'sub-expression to the plain expression printer instead of the precedence decider: a chain base such '
+                                  f'as `(-x).f()` loses its parentheses and re-parses as `-(x.f())`')
+    for pos in RESTRICTED + [('chain', 'base')]:
+        key = f'decided:{pos[0]}.{pos[1]}'
+        if pos in reached:
+            b, line = reached[pos][0]
+            res.ok(key, b.loc(line), f'{pos[0]}.{pos[1]} reaches the precedence decider ({len(reached[pos])} site(s))')
+        else:
+            res.violation(key, dec.loc(), f'no printer function hands {pos[0]}.{pos[1]} to the precedence decider {dec.name} any more: '
+                          f'the decision whether this undelimited child needs parentheses is not made by precedence comparison')
+    res.analysed['decider'] = dec.name
+    res.analysed['plain_printers'] = sorted(prog.bodies[i].name for i in plain)
+    return [res]
